@@ -187,4 +187,129 @@ theorem beq_zero_true (a : Rat) (h : Scalar.beq a (Scalar.zero : Rat) = true) : 
   rw [beq_zero_false a hne] at h
   cases h
 
+/-! ### the repaired clipping loop (bound chosen by the sign of the direction) -/
+
+theorem smax_zero_nonneg (q : Rat) : 0 ≤ Scalar.max (Scalar.zero : Rat) q := by
+  unfold Scalar.max
+  by_cases h : (Scalar.zero : Rat) < q
+  · rw [if_pos h]; exact le_of_lt h
+  · rw [if_neg h]; exact le_refl _
+
+theorem smax_zero_of_nonneg (q : Rat) (h : 0 ≤ q) : Scalar.max (Scalar.zero : Rat) q = q := by
+  unfold Scalar.max
+  by_cases h' : (Scalar.zero : Rat) < q
+  · rw [if_pos h']
+  · rw [if_neg h']; exact le_antisymm h (not_lt.mp h')
+
+theorem smin_nonneg (a b : Rat) (ha : 0 ≤ a) (hb : 0 ≤ b) : 0 ≤ Scalar.min a b := by
+  unfold Scalar.min; split <;> assumption
+
+variable (pt d : BoxCoord Rat → Rat)
+
+/-- the loop with the repaired body -/
+def clipS (cs : List (BoxCoord Rat)) (a0 : Rat) : Rat := cs.foldl (clipStepSign pt d) a0
+
+theorem clipStepSign_nonneg (alpha : Rat) (c : BoxCoord Rat) (h : 0 ≤ alpha) : 0 ≤ clipStepSign pt d alpha c := by
+  unfold clipStepSign
+  by_cases h1 : (!c.act || Scalar.beq (d c) Scalar.zero) = true
+  · rw [if_pos h1]; exact h
+  · rw [if_neg h1]
+    exact smin_nonneg _ _ h (smax_zero_nonneg _)
+
+theorem clipStepSign_le (alpha : Rat) (c : BoxCoord Rat) : clipStepSign pt d alpha c ≤ alpha := by
+  unfold clipStepSign
+  by_cases h1 : (!c.act || Scalar.beq (d c) Scalar.zero) = true
+  · rw [if_pos h1]
+  · rw [if_neg h1]; exact smin_le_left _ _
+
+/-- the quotient the repaired loop clips against -/
+def signQuot (c : BoxCoord Rat) : Rat := ((if (Scalar.zero : Rat) < d c then c.u else c.l) - pt c) / d c
+
+theorem clipStepSign_bound (alpha : Rat) (c : BoxCoord Rat) (hact : c.act = true) (hd : d c ≠ 0) :
+    clipStepSign pt d alpha c ≤ Scalar.max (Scalar.zero : Rat) (signQuot pt d c) := by
+  unfold clipStepSign signQuot
+  have h1 : ¬ ((!c.act || Scalar.beq (d c) Scalar.zero) = true) := by
+    simp [hact, beq_zero_false (d c) hd]
+  rw [if_neg h1]
+  exact smin_le_right _ _
+
+theorem clipStepSign_pos (alpha : Rat) (c : BoxCoord Rat) (h : 0 < alpha)
+    (hq : c.act = true → d c ≠ 0 → 0 < signQuot pt d c) : 0 < clipStepSign pt d alpha c := by
+  unfold clipStepSign
+  by_cases h1 : (!c.act || Scalar.beq (d c) Scalar.zero) = true
+  · rw [if_pos h1]; exact h
+  · rw [if_neg h1]
+    have hact : c.act = true := by
+      cases hc : c.act with
+      | true => rfl
+      | false => simp [hc] at h1
+    have hd : d c ≠ 0 := by
+      intro h0
+      have : Scalar.beq (d c) (Scalar.zero : Rat) = true := by
+        rw [h0]; show (decide ((0:Rat) ≤ 0) && decide ((0:Rat) ≤ 0)) = true; simp
+      simp [this] at h1
+    have hq' := hq hact hd
+    unfold signQuot at hq'
+    simp only
+    apply smin_pos _ _ h
+    rw [smax_zero_of_nonneg _ (le_of_lt hq')]; exact hq'
+
+theorem clipS_nonneg (cs : List (BoxCoord Rat)) : ∀ a0 : Rat, 0 ≤ a0 → 0 ≤ clipS pt d cs a0 := by
+  induction cs with
+  | nil => intro a0 h; exact h
+  | cons c cs ih => intro a0 h; exact ih _ (clipStepSign_nonneg pt d a0 c h)
+
+theorem clipS_le (cs : List (BoxCoord Rat)) : ∀ a0 : Rat, clipS pt d cs a0 ≤ a0 := by
+  induction cs with
+  | nil => intro a0; exact le_refl _
+  | cons c cs ih => intro a0; exact le_trans (ih _) (clipStepSign_le pt d a0 c)
+
+theorem clipS_bound (cs : List (BoxCoord Rat)) : ∀ (a0 : Rat) (c : BoxCoord Rat), c ∈ cs → c.act = true → d c ≠ 0 →
+    clipS pt d cs a0 ≤ Scalar.max (Scalar.zero : Rat) (signQuot pt d c) := by
+  induction cs with
+  | nil => intro a0 c hc; cases hc
+  | cons c' cs ih =>
+    intro a0 c hc hact hd
+    rcases List.mem_cons.mp hc with rfl | hc'
+    · exact le_trans (clipS_le pt d cs _) (clipStepSign_bound pt d a0 c hact hd)
+    · exact ih _ c hc' hact hd
+
+theorem clipS_pos (cs : List (BoxCoord Rat)) : ∀ a0 : Rat, 0 < a0 →
+    (∀ c ∈ cs, c.act = true → d c ≠ 0 → 0 < signQuot pt d c) → 0 < clipS pt d cs a0 := by
+  induction cs with
+  | nil => intro a0 h _; exact h
+  | cons c cs ih =>
+    intro a0 h hq
+    exact ih _ (clipStepSign_pos pt d a0 c h (hq c List.mem_cons_self)) (fun c' hc' => hq c' (List.mem_cons_of_mem _ hc'))
+
+/-- with the repaired loop, moving from a point inside the box along `d` by the clipped step length stays inside
+the box — no "room" hypothesis is needed, a bound at distance 0 gives step length 0 -/
+theorem clipS_move_feasible (cs : List (BoxCoord Rat)) (c : BoxCoord Rat) (hc : c ∈ cs)
+    (hl : c.l ≤ pt c) (hu : pt c ≤ c.u) (h0 : c.act = false → d c = 0) :
+    c.l ≤ pt c + clipS pt d cs 1 * d c ∧ pt c + clipS pt d cs 1 * d c ≤ c.u := by
+  have hnn : 0 ≤ clipS pt d cs 1 := clipS_nonneg pt d cs 1 (by norm_num)
+  cases hact : c.act with
+  | false => rw [h0 hact]; constructor <;> linarith
+  | true =>
+    rcases lt_trichotomy (d c) 0 with hd | hd | hd
+    · have hb := clipS_bound pt d cs 1 c hc hact (ne_of_lt hd)
+      have hq : signQuot pt d c = (c.l - pt c) / d c := by
+        unfold signQuot; rw [if_neg (show ¬ (Scalar.zero : Rat) < d c from not_lt.mpr (le_of_lt hd))]
+      have hq0 : 0 ≤ (c.l - pt c) / d c := div_nonneg_of_nonpos (by linarith) (le_of_lt hd)
+      rw [hq, smax_zero_of_nonneg _ hq0] at hb
+      have h2 : clipS pt d cs 1 * d c ≥ (c.l - pt c) / d c * d c := mul_le_mul_of_nonpos_right hb (le_of_lt hd)
+      rw [div_mul_cancel₀ _ (ne_of_lt hd)] at h2
+      have h3 : clipS pt d cs 1 * d c ≤ 0 := mul_nonpos_of_nonneg_of_nonpos hnn (le_of_lt hd)
+      constructor <;> linarith
+    · rw [hd]; constructor <;> linarith
+    · have hb := clipS_bound pt d cs 1 c hc hact (ne_of_gt hd)
+      have hq : signQuot pt d c = (c.u - pt c) / d c := by
+        unfold signQuot; rw [if_pos (show (Scalar.zero : Rat) < d c from hd)]
+      have hq0 : 0 ≤ (c.u - pt c) / d c := div_nonneg (by linarith) (le_of_lt hd)
+      rw [hq, smax_zero_of_nonneg _ hq0] at hb
+      have h2 : clipS pt d cs 1 * d c ≤ (c.u - pt c) / d c * d c := mul_le_mul_of_nonneg_right hb (le_of_lt hd)
+      rw [div_mul_cancel₀ _ (ne_of_gt hd)] at h2
+      have h3 : 0 ≤ clipS pt d cs 1 * d c := mul_nonneg hnn (le_of_lt hd)
+      constructor <;> linarith
+
 end SharkVerif.Opt.LSOpt.Box
